@@ -79,6 +79,12 @@ type scenario struct {
 }
 
 func buildScenario(rng *rand.Rand, t int, kind string, npeers int) *scenario {
+	return buildScenarioD(rng, t, kind, npeers, false)
+}
+
+// dense: every peer differs from the target in its last two bytes only, so many peers share a log distance while their
+// XOR distances differ - the order within the result list is then decided by the exact metric (seed C10-4)
+func buildScenarioD(rng *rand.Rand, t int, kind string, npeers int, dense bool) *scenario {
 	sc := &scenario{t: t, kind: kind, idx: map[enode.ID]int{}, cancelAfter: -1}
 	var selfID enode.ID
 	rng.Read(selfID[:])
@@ -89,7 +95,14 @@ func buildScenario(rng *rand.Rand, t int, kind string, npeers int) *scenario {
 	for i := 1; i <= npeers; i++ {
 		var id enode.ID
 		rng.Read(id[:])
-		if rng.Intn(4) == 0 { // some peers very close to the target
+		if dense {
+			id = sc.target
+			id[31] ^= byte(rng.Intn(256))
+			id[30] ^= byte(rng.Intn(256))
+			if id == sc.target {
+				id[31] ^= 1
+			}
+		} else if rng.Intn(4) == 0 { // some peers very close to the target
 			id = sc.target
 			id[31] ^= byte(i)
 			id[30] ^= byte(i >> 8)
@@ -598,6 +611,15 @@ func Main(args []string) error {
 	}
 	for i := 0; i < *big; i++ {
 		if err := run("node", 20+rng.Intn(181)); err != nil {
+			return err
+		}
+	}
+	for i := 0; i < *big; i++ { // dense neighbourhoods: more than 16 peers per log distance
+		rg := common.Rng(*seed*6700417 + int64(t))
+		sc := buildScenarioD(rg, t, "node", 24+rng.Intn(60), true)
+		sc.cancelAfter = -1
+		t++
+		if err := runScenario(w, rg, sc); err != nil {
 			return err
 		}
 	}
